@@ -16,6 +16,7 @@ class Ob:
         self.kf = kf or []        # known-finding class predicates (fn names) to assume away
         self.opts = opts or {}; self.loop_unwind = loop_unwind or {}
         self.strlen = strlen; self.solvers = solvers; self.validate = validate; self.window = window
+        self.custom = None      # callable(prog, ob, checks_on, qdir, timeout, cross) -> record, for obligations cut out of a function's CFG
 
 ABSTRACTION_TABLE = {}     # filled by checks (name -> factory(ex) -> Abstraction)
 
